@@ -13,7 +13,11 @@
   `parent=roll_pass`) and its registration as pre-processor -> `Rot.FactorySpec`; whether it starts with
   `roll_pass.__cache__.pop("rotation", None)` (cached value of an earlier solve discarded) -> `Rot.CacheSpec`;
 * `pyroll/core/rotator/rotator.py` (`next_roll_pass`), `pyroll/core/unit/unit.py` (`init_solve` hand-over),
-  `pyroll/core/config.py` (default of the switch) -> `Rot.FlowSpec`, `autoDefault`.
+  `pyroll/core/config.py` (default of the switch) -> `Rot.FlowSpec`, `autoDefault`;
+* the object graph the walk navigates: `Unit.prev` (which exception without parent / for the first member, which member is
+  returned) -> `Rot.PrevSpec`; `_SubUnitsList.__init__` / `.clear` of unit/unit.py (statement order: the underlying list operation
+  and the loop that sets the members' parent) -> `Rot.ListOpsSpec`; `PassSequence.flatten` of sequence/sequence.py (the operations
+  applied to a member that is a sequence, and their order relative to the installation of the new list) -> `Rot.FlattenSpec`.
 
 Only whitelisted AST shapes are accepted; anything else raises `Gap` (-> broken tie; the generated file is left as it is).
 The hand-written model `lean/PyrollModel/Rot.lean` is an interpreter of this data.
@@ -540,6 +544,186 @@ def extract_auto_default(cfg_tree):
 
 
 # ---------------------------------------------------------------------------------------------------------------
+# the object graph: Unit.prev, _SubUnitsList.__init__/clear, PassSequence.flatten
+# ---------------------------------------------------------------------------------------------------------------
+EXC = {"ValueError": "value", "IndexError": "index"}
+
+
+def _raise_kind(stmts, what):
+    if len(stmts) == 1 and isinstance(stmts[0], ast.Raise) and stmts[0].cause is None:
+        e = stmts[0].exc
+        name = _path(e.func) if isinstance(e, ast.Call) else _path(e)
+        if name in EXC:
+            return EXC[name]
+    raise Gap(f"{what}: expected a single `raise ValueError/IndexError(...)`, found: {'; '.join(_src(s) for s in stmts)}")
+
+
+def _is_none(node):
+    return isinstance(node, ast.Constant) and node.value is None
+
+
+def extract_prev(unit_tree):
+    ucls = _class(unit_tree, "Unit")
+    fn = _method(ucls, "prev") if ucls else None
+    if fn is None or not any(_path(d) == "property" for d in fn.decorator_list):
+        raise Gap("property Unit.prev not found")
+    me = fn.args.args[0].arg
+    body = _strip_doc(fn.body)
+    if len(body) != 4:
+        raise Gap(f"Unit.prev: expected 4 statements, found {len(body)}")
+    a, b, c, d = body
+    if not (isinstance(a, ast.If) and not a.orelse and isinstance(a.test, ast.Compare) and len(a.test.ops) == 1
+            and isinstance(a.test.ops[0], ast.Is) and _path(a.test.left) == f"{me}.parent" and _is_none(a.test.comparators[0])):
+        raise Gap(f"Unit.prev: first statement is not `if {me}.parent is None: raise …`: {_src(a)}")
+    no_parent = _raise_kind(a.body, "Unit.prev (no parent)")
+    if not (isinstance(b, ast.Assign) and len(b.targets) == 1 and isinstance(b.targets[0], ast.Name)
+            and isinstance(b.value, ast.Call) and _path(b.value.func) == f"{me}.parent.subunits.index"
+            and len(b.value.args) == 1 and _path(b.value.args[0]) == me and not b.value.keywords):
+        raise Gap(f"Unit.prev: second statement is not `i = {me}.parent.subunits.index({me})`: {_src(b)}")
+    i = b.targets[0].id
+    if not (isinstance(c, ast.If) and not c.orelse and isinstance(c.test, ast.Compare) and len(c.test.ops) == 1
+            and isinstance(c.test.ops[0], ast.Eq) and _path(c.test.left) == i and isinstance(c.test.comparators[0], ast.Constant)
+            and c.test.comparators[0].value == 0 and type(c.test.comparators[0].value) is int):
+        raise Gap(f"Unit.prev: third statement is not `if {i} == 0: raise …`: {_src(c)}")
+    first = _raise_kind(c.body, "Unit.prev (first member)")
+    if not (isinstance(d, ast.Return) and isinstance(d.value, ast.Subscript) and _path(d.value.value) == f"{me}.parent.subunits"
+            and isinstance(d.value.slice, ast.BinOp) and isinstance(d.value.slice.op, ast.Sub) and _path(d.value.slice.left) == i
+            and isinstance(d.value.slice.right, ast.Constant) and type(d.value.slice.right.value) is int
+            and d.value.slice.right.value >= 0):
+        raise Gap(f"Unit.prev: last statement is not `return {me}.parent.subunits[{i} - <n>]`: {_src(d)}")
+    # `subunits` must be the plain accessor of the list the parent pointers are maintained for
+    sub = _method(ucls, "subunits")
+    sb = _strip_doc(sub.body) if sub is not None else []
+    if not (len(sb) == 1 and isinstance(sb[0], ast.Return) and _path(sb[0].value) == "self._subunits"):
+        raise Gap("Unit.subunits is not `return self._subunits`")
+    return {"noParent": no_parent, "first": first, "offset": d.value.slice.right.value, "lineno": fn.lineno}
+
+
+def _list_stmts(fn, owner_exprs, what):
+    """statements of a `_SubUnitsList` method -> ["super" | ("each", to_owner)]; `self._owner = weakref.ref(owner)` is skipped"""
+    me = fn.args.args[0].arg
+    out = []
+    for st in _strip_doc(fn.body):
+        if isinstance(st, ast.Expr) and isinstance(st.value, ast.Call) and isinstance(st.value.func, ast.Attribute) \
+                and st.value.func.attr == fn.name and isinstance(st.value.func.value, ast.Call) \
+                and _path(st.value.func.value.func) == "super" and not st.value.func.value.args:
+            out.append("super")
+        elif isinstance(st, ast.Assign) and len(st.targets) == 1 and _path(st.targets[0]) == f"{me}._owner":
+            continue
+        elif isinstance(st, ast.For) and not st.orelse and isinstance(st.target, ast.Name) and _path(st.iter) == me \
+                and len(st.body) == 1 and isinstance(st.body[0], ast.Assign) and len(st.body[0].targets) == 1 \
+                and _path(st.body[0].targets[0]) == f"{st.target.id}.parent":
+            v = st.body[0].value
+            if _is_none(v):
+                out.append(("each", False))
+            elif _src(v) in owner_exprs:
+                out.append(("each", True))
+            else:
+                raise Gap(f"{what}: members' parent set to something else than the owner / None: {_src(st)}")
+        else:
+            raise Gap(f"{what}: statement outside the subset: {_src(st)}")
+    return out
+
+
+def extract_listops(unit_tree):
+    ucls = _class(unit_tree, "Unit")
+    lcls = next((n for n in ucls.body if isinstance(n, ast.ClassDef) and n.name == "_SubUnitsList"), None) if ucls else None
+    if lcls is None:
+        raise Gap("Unit._SubUnitsList not found")
+    init, clear = _method(lcls, "__init__"), _method(lcls, "clear")
+    if init is None or clear is None:
+        raise Gap("_SubUnitsList.__init__ / .clear not found")
+    if len(init.args.args) != 3 or len(clear.args.args) != 1:
+        raise Gap("_SubUnitsList.__init__ / .clear: expected (self, owner, units) / (self)")
+    me, owner = init.args.args[0].arg, init.args.args[1].arg
+    return {"init": _list_stmts(init, {owner, f"{me}._owner()"}, "_SubUnitsList.__init__"),
+            "clear": _list_stmts(clear, {f"{clear.args.args[0].arg}._owner()"}, "_SubUnitsList.clear"),
+            "lineno": lcls.lineno}
+
+
+def extract_flatten(seq_tree):
+    cls = _class(seq_tree, "PassSequence")
+    fn = _method(cls, "flatten") if cls else None
+    if fn is None:
+        raise Gap("PassSequence.flatten not found")
+    me = fn.args.args[0].arg
+    units = _method(cls, "units")
+    ub = _strip_doc(units.body) if units is not None else []
+    if not (len(ub) == 1 and isinstance(ub[0], ast.Return) and isinstance(ub[0].value, ast.Call)
+            and _path(ub[0].value.func) == "list" and len(ub[0].value.args) == 1 and _path(ub[0].value.args[0]) == "self._subunits"):
+        raise Gap("PassSequence.units is not `return list(self._subunits)`")
+    lists = []          # local list names in order of creation; the first one that is installed is `new_list`
+    phases = []
+    new_list = None
+    # find the list that is installed
+    for st in fn.body:
+        if isinstance(st, ast.Assign) and len(st.targets) == 1 and _path(st.targets[0]) == f"{me}._subunits":
+            v = st.value
+            if isinstance(v, ast.Call) and _path(v.func) == f"{me}._SubUnitsList" and len(v.args) == 2 and not v.keywords \
+                    and _path(v.args[0]) == me and isinstance(v.args[1], ast.Name):
+                new_list = v.args[1].id
+    if new_list is None:
+        raise Gap(f"flatten: no `{me}._subunits = {me}._SubUnitsList({me}, <list>)`")
+
+    def item_ops(stmts, item):
+        ops = []
+        for st in stmts:
+            if isinstance(st, ast.Expr) and isinstance(st.value, ast.Call) and not st.value.keywords:
+                f, args = _path(st.value.func), st.value.args
+                if f == f"{new_list}.extend" and len(args) == 1 and _path(args[0]) == f"{item}.units":
+                    ops.append("collect")
+                    continue
+                if f == f"{item}.subunits.clear" and not args:
+                    ops.append("clear")
+                    continue
+                if f is not None and f.endswith(".append") and f[:-7] in lists and f[:-7] != new_list and len(args) == 1 \
+                        and _path(args[0]) == item:
+                    ops.append("remember")
+                    kept.add(f[:-7])
+                    continue
+            if isinstance(st, ast.Assign) and len(st.targets) == 1 and _path(st.targets[0]) == f"{item}.parent" and _is_none(st.value):
+                ops.append("orphan")
+                continue
+            raise Gap(f"flatten: statement outside the subset for a member that is a sequence: {_src(st)}")
+        return ops
+    kept = set()
+    for st in _strip_doc(fn.body):
+        if isinstance(st, ast.Assign) and len(st.targets) == 1 and isinstance(st.targets[0], ast.Name) \
+                and isinstance(st.value, ast.List) and not st.value.elts:
+            lists.append(st.targets[0].id)
+            continue
+        if isinstance(st, ast.For) and not st.orelse and isinstance(st.target, ast.Name):
+            item = st.target.id
+            it = st.iter
+            if isinstance(it, ast.Call) and _path(it.func) == "list" and len(it.args) == 1 and _path(it.args[0]) == me:
+                if not (len(st.body) == 1 and isinstance(st.body[0], ast.If)):
+                    raise Gap("flatten: main loop body is not one `if isinstance(item, PassSequence): … else: …`")
+                br = st.body[0]
+                t = br.test
+                if not (isinstance(t, ast.Call) and _path(t.func) == "isinstance" and len(t.args) == 2
+                        and _path(t.args[0]) == item and _path(t.args[1]) == "PassSequence"):
+                    raise Gap(f"flatten: test of the main loop is not `isinstance({item}, PassSequence)`: {_src(t)}")
+                e = br.orelse
+                if not (len(e) == 1 and isinstance(e[0], ast.Expr) and isinstance(e[0].value, ast.Call)
+                        and _path(e[0].value.func) == f"{new_list}.append" and len(e[0].value.args) == 1
+                        and _path(e[0].value.args[0]) == item):
+                    raise Gap(f"flatten: else branch is not `{new_list}.append({item})`")
+                phases.append(("main", item_ops(br.body, item)))
+                continue
+            if isinstance(it, ast.Name) and it.id in kept:
+                phases.append(("deferred", item_ops(st.body, item)))
+                continue
+            raise Gap(f"flatten: loop outside the subset: {_src(st.iter)}")
+        if isinstance(st, ast.Assign) and len(st.targets) == 1 and _path(st.targets[0]) == f"{me}._subunits":
+            phases.append(("install",))
+            continue
+        raise Gap(f"flatten: statement outside the subset: {_src(st)}")
+    if len(kept) > 1:
+        raise Gap("flatten: more than one list of remembered members")
+    return {"phases": phases, "lineno": fn.lineno}
+
+
+# ---------------------------------------------------------------------------------------------------------------
 # emit
 # ---------------------------------------------------------------------------------------------------------------
 def _s(x):
@@ -586,13 +770,17 @@ def extract_all(repo):
     data["rotationFns"] = order
     data["walk"] = walk
     data["factory"] = extract_factory(_parse(repo, "roll_pass/base.py"))
-    data["flow"] = extract_flow(_parse(repo, "rotator/rotator.py"), _parse(repo, "unit/unit.py"))
+    unit_tree = _parse(repo, "unit/unit.py")
+    data["flow"] = extract_flow(_parse(repo, "rotator/rotator.py"), unit_tree)
     data["autoDefault"] = extract_auto_default(_parse(repo, "config.py"))
+    data["prev"] = extract_prev(unit_tree)
+    data["listOps"] = extract_listops(unit_tree)
+    data["flatten"] = extract_flatten(_parse(repo, "sequence/sequence.py"))
     return data
 
 
 def lean_text(d):
-    L = ["import PyrollModel.Rot",
+    L = ["import PyrollModel.RotNav",
          "/- GENERATED by driver/translate/c14_rot.py from /repo's working tree on every run - do not edit. -/",
          "namespace Gen.C14", "open Rot", ""]
     L.append("/-- pyroll/core/rotator/hookimpls.py: the functions registered on `Rotator.rotation`, in registration order -/")
@@ -639,6 +827,27 @@ def lean_text(d):
     L.append(f"def autoDefault : Bool := {_b(d['autoDefault'])}")
     L.append("")
     L.append("def tables : Tables :=\n  { rules := rules, walk := walk, rotationFns := rotationFns, factory := factory, marks := marks }")
+    L.append("")
+    pv = d["prev"]
+    L.append(f"/-- pyroll/core/unit/unit.py:{pv['lineno']} `Unit.prev` -/")
+    L.append(f"def prevSpec : PrevSpec := {{ noParent := .{pv['noParent']}, first := .{pv['first']}, offset := {pv['offset']} }}")
+    L.append("")
+
+    def stmts(l):
+        return "[" + ", ".join(".super" if x == "super" else f".eachParent {_b(x[1])}" for x in l) + "]"
+    lo = d["listOps"]
+    L.append(f"/-- pyroll/core/unit/unit.py:{lo['lineno']} `Unit._SubUnitsList.__init__` / `.clear` -/")
+    L.append(f"def listOps : ListOpsSpec :=\n  {{ init := {stmts(lo['init'])}, clear := {stmts(lo['clear'])} }}")
+    L.append("")
+    fl2 = d["flatten"]
+    ph = []
+    for x in fl2["phases"]:
+        if x[0] == "install":
+            ph.append(".install")
+        else:
+            ph.append(f".{x[0]} [" + ", ".join("." + o for o in x[1]) + "]")
+    L.append(f"/-- pyroll/core/sequence/sequence.py:{fl2['lineno']} `PassSequence.flatten` -/")
+    L.append("def flattenSpec : FlattenSpec := [" + ", ".join(ph) + "]")
     L.append("")
     L.append("end Gen.C14")
     return "\n".join(L) + "\n"
